@@ -654,11 +654,55 @@ pub fn canary() -> Result<(), String> {
     use crate::vals::{Base, ColSpec, Val, Wrap};
     let cols = vec![ColSpec::simple("n", T_LONGLONG, 0), ColSpec::simple("s", T_VAR_STRING, 0), ColSpec::simple("z", T_LONG, 0)];
     let row = RowProg { cells: vec![Val::plain(Base::I64(-1234567890123)), Val::plain(Base::StrRef("canary".into())), Val { base: Base::I32(0), wrap: Wrap::None }], form: RowForm::Cols, offers: vec![] };
-    let prog = Program { steps: vec![Step::Set { cols, rows: vec![row], end: SetEnd::Finish }] };
-    let conv = Conversation::new(vec![Cmd::Ping, Cmd::Query { text: Blob::text("SELECT canary") }, Cmd::Ping, Cmd::Quit], vec![Action::Result(prog)]);
+    let prog = Program { steps: vec![Step::Set { cols: cols.clone(), rows: vec![row.clone()], end: SetEnd::Finish }] };
+    let bin_prog = Program { steps: vec![Step::CompleteOne { rows: 3, id: 4 }, Step::Set { cols, rows: vec![row], end: SetEnd::Finish }] };
+    const OWN_ID: u32 = 424_242;
+    let conv = Conversation::new(
+        vec![
+            Cmd::Ping,
+            Cmd::Query { text: Blob::text("SELECT canary") },
+            Cmd::Prepare { text: Blob::text("canary ?") },
+            Cmd::Execute { id: OWN_ID, params: vec![Param { coltype: T_VAR_STRING, unsigned: false, value: PVal::Bytes(b"bound".to_vec()) }], send_types: true, flags: 0, iterations: 1 },
+            Cmd::Query { text: Blob::text("canary error") },
+            Cmd::Close { id: OWN_ID },
+            Cmd::Ping,
+            Cmd::Quit,
+        ],
+        vec![
+            Action::Result(prog),
+            Action::Prepare(PrepProg::Reply { id: OWN_ID, params: vec![ColSpec::simple("p", T_VAR_STRING, 0)], cols: vec![] }),
+            Action::Result(bin_prog),
+            Action::Result(Program { steps: vec![Step::Error { kind: 1064, msg: b"canary says no".to_vec() }] }),
+        ],
+    );
     let o = run_with(&conv, None, false);
     if !o.result.is_ok() {
         return Err(format!("run_on returned {}", o.result.brief()));
+    }
+    if !o.mismatches.is_empty() || o.leftover_actions != 0 {
+        return Err(format!("its callbacks do not match what the client sent: {:?}, {} unused", o.mismatches, o.leftover_actions));
+    }
+    match o.events.iter().find_map(|e| if let Event::Execute { id, params } = e { Some((*id, params)) } else { None }) {
+        Some((OWN_ID, ps)) if ps.len() == 1 && ps[0].coltype == T_VAR_STRING && matches!(&ps[0].inner, Inner::Bytes(b) if b == b"bound") => {}
+        other => return Err(format!("its execution reached the shim as {:?}", other.map(|(id, ps)| (id, ps.len())))),
+    }
+    // ... and one more, whose client executes statements it never prepared: ids that the case's
+    // connection may have had open (1 is the usual one) are nobody's on a new connection
+    let stale = Conversation::new(
+        vec![
+            Cmd::Execute { id: 1, params: vec![], send_types: false, flags: 0, iterations: 1 },
+            Cmd::Execute { id: OWN_ID, params: vec![], send_types: false, flags: 0, iterations: 1 },
+        ],
+        vec![],
+    );
+    let mut stale = stale;
+    stale.auto_ids = Some(vec![]);
+    let so = run_with(&stale, None, false);
+    if so.result.is_panic() {
+        return Err(format!("executing a never-prepared statement: run_on returned {}", so.result.brief()));
+    }
+    if let Some(e) = so.events.iter().find(|e| matches!(e, Event::Execute { .. })) {
+        return Err(format!("a statement that was never prepared on this connection was executed: {}", e.brief()));
     }
     let kinds: Vec<ReplyKind> = conv.cmds.iter().map(|sc| sc.cmd.reply_kind()).collect();
     let d = decode_output(&o.out, &kinds);
